@@ -214,6 +214,21 @@ def work(p):
                 except Exception as e:
                     acc.violation("raised", case, repr(e))
                 acc.case((an, si, ti, free, "unreach", sname))
+            # history on ONE arm: a solve that fails (goal beyond reach, restarts off), then an ordinary solve of a reachable goal
+            # from a near start, with restarts off and on: the second answer and the arm's state are judged as usual
+            for tname in ("g1", "g2"):
+                ths2 = ref0.clamp(goals[tname])
+                G2 = ref0.fk(ths2)
+                for check2 in (False, True):
+                    case = dict(base, goal=tname, start="near_after_failed_solve", restarts=["on"] if check2 else None)
+                    arm = copy.deepcopy(arm0)
+                    try:
+                        solve(arm, G, ref0.clamp(goals["g1"]), free, False, 0)
+                        th, ok, _ = solve(arm, G2, ref0.clamp(ths2 + 0.01), free, check2, 1, [0.5] * (2 * ref0.n))
+                        judge(acc, arm, ref0, case, G2, th, ok, free, True, False, ptol, rtol)
+                    except Exception as e:
+                        acc.violation("raised", case, repr(e))
+                    acc.case((an, si, ti, free, "after_failure", tname, check2))
         # restart policy on: every sequence of restart vectors of length <= 2 over a 3-vector menu (CX, full enumeration)
         if ti == 0:
             ths = ref0.clamp(goals["g2"])
